@@ -229,7 +229,15 @@ def judgeLine (s : JState) (line : String) : JState × String :=
     | "tick" :: _ => some [Ev.disturbed]
     | ["end"] => some []
     | _ => some []
-  let post : List Ev := if words inp == ["end"] then [Ev.finished] else []
+  let heldAtEnd : List Ev :=
+    if words inp == ["end"] then
+      match (obs.splitOn " ; ").filterMap (fun part => match words part with
+        | ["sizes", a, b, c, d] => do let a ← a.toNat?; let b ← b.toNat?; let c ← c.toNat?; let d ← d.toNat?; some (a + b + c + d)
+        | _ => none) with
+      | n :: _ => [Ev.atRest n]
+      | [] => []
+    else []
+  let post : List Ev := if words inp == ["end"] then [Ev.finished] ++ heldAtEnd else []
   let s0 : JState := match words inp with | "cfg" :: _ => {} | _ => s
   match pre, parseObserved obs with
   | some pre, some evs =>
